@@ -28,6 +28,10 @@ pub enum Step {
     Reprobe { member: u16, slot: Slot },
     /// adaptive attack on coordinate `coord` between members i and j using the weights learned so far
     Attack { i: u16, j: u16, coord: u16, delta: u64 },
+    /// (batches with a repeated member) bump the same response scalar in BOTH copies, read the factors again
+    ReprobeTwins { slot: Slot },
+    /// (batches with a repeated member) the same offset on d1[coord] of both copies, compensated on a third member
+    AttackTwins { other: u16, coord: u16, delta: u64 },
 }
 
 #[derive(Clone, Debug, Serialize, Deserialize)]
@@ -37,6 +41,9 @@ pub struct HistSpec {
     pub members: Vec<PoolMember>,
     pub script: Vec<Step>,
     pub mode: bool,
+    /// indices of members that appear a second time in the batch (identical statement, proof and context)
+    #[serde(default)]
+    pub repeats: Vec<u16>,
 }
 
 fn slot_strategy() -> impl Strategy<Value = Slot> {
@@ -52,17 +59,21 @@ fn hist_strategy() -> impl Strategy<Value = HistSpec> {
                 (any::<u16>(), slot_strategy()).prop_map(|(member, slot)| Step::Reprobe { member, slot }),
                 (any::<u16>(), any::<u16>(), any::<u16>(), prop_oneof![Just(1u64), any::<u64>()])
                     .prop_map(|(i, j, coord, delta)| Step::Attack { i, j, coord, delta }),
+                slot_strategy().prop_map(|slot| Step::ReprobeTwins { slot }),
+                (any::<u16>(), any::<u16>(), prop_oneof![Just(1u64), any::<u64>()]).prop_map(|(other, coord, delta)| Step::AttackTwins { other, coord, delta }),
             ],
             1..=4,
         ),
         any::<bool>(),
+        prop_oneof![3 => Just(vec![]), 2 => prop::collection::vec(any::<u16>(), 1..=2)],
     )
-        .prop_map(|(bits_idx, ext, members, script, mode)| HistSpec {
+        .prop_map(|(bits_idx, ext, members, script, mode, repeats)| HistSpec {
             bits_idx,
             ext,
             members,
             script,
             mode,
+            repeats,
         })
 }
 
@@ -111,6 +122,16 @@ const MARK: u128 = 0x3_0000_0000;
 
 /// Weights of one run, read from markers planted in every B (the run itself is of course rejected)
 fn weights(ms: &[Member<F>], proofs: &[RangeProof<FP>], action: VerifyAction) -> Result<Vec<Scalar>, String> {
+    weights_grouped(ms, proofs, action, None)
+}
+
+/// `merge`: the two members of a repeated pair get the SAME marker (so they stay byte-identical); both entries of the
+/// result then hold the SUM of their two factors
+fn weights_grouped(ms: &[Member<F>], proofs: &[RangeProof<FP>], action: VerifyAction, merge: Option<(usize, usize)>) -> Result<Vec<Scalar>, String> {
+    let marker = |i: usize| match merge {
+        Some((a, b)) if i == b => MARK + a as u128,
+        _ => MARK + i as u128,
+    };
     let marked: Vec<RangeProof<FP>> = ms
         .iter()
         .zip(proofs.iter())
@@ -128,12 +149,12 @@ fn weights(ms: &[Member<F>], proofs: &[RangeProof<FP>], action: VerifyAction) ->
             };
             edit(&mm, |pf| {
                 let b = <FP as Grp>::dec(&pf.b).expect("B decodes");
-                pf.b = b.add(&FP::basis(MARK + i as u128)).enc();
+                pf.b = b.add(&FP::basis(marker(i))).enc();
             })
         })
         .collect::<Result<_, _>>()?;
     let (_, res) = run(ms, &marked, action)?;
-    Ok((0..ms.len()).map(|i| -res.coef(MARK + i as u128)).collect())
+    Ok((0..ms.len()).map(|i| -res.coef(marker(i))).collect())
 }
 
 pub fn oracle(_ctx: &RunCtx, spec: &HistSpec, log: &mut CaseLog) -> Result<(), String> {
@@ -144,6 +165,24 @@ pub fn oracle(_ctx: &RunCtx, spec: &HistSpec, log: &mut CaseLog) -> Result<(), S
         .iter()
         .map(|pm| build_member::<F>(bits, spec.ext, pm, bits.max(16)))
         .collect::<Result<_, _>>()?;
+    let mut ms = ms;
+    let mut twin: Option<(usize, usize)> = None;
+    for r in &spec.repeats {
+        let src = pick(*r, ms.len());
+        let c = Member::<F> {
+            st: ms[src].st.clone(),
+            proof: ms[src].proof.clone(),
+            ctx: ms[src].ctx.clone(),
+            valid: true,
+            mask: None,
+            m: ms[src].m,
+            cap: ms[src].cap,
+            altered: false,
+        };
+        // directly after its original
+        ms.insert(src + 1, c);
+        twin = Some((src, src + 1));
+    }
     let n = ms.len();
     let action = if spec.mode { VerifyAction::VerifyOnly } else { VerifyAction::RecoverAndVerify };
     let honest: Vec<RangeProof<FP>> = ms.iter().map(|m| m.proof.clone()).collect();
@@ -254,11 +293,102 @@ pub fn oracle(_ctx: &RunCtx, spec: &HistSpec, log: &mut CaseLog) -> Result<(), S
                 shapes.push("attack".into());
                 log.nontrivial(&(n, i, j, k, shapes.clone(), spec.ext, bits));
             },
+            Step::ReprobeTwins { slot } => {
+                let (a, b) = match twin {
+                    Some(t) if n >= 3 => t,
+                    _ => continue,
+                };
+                let before = weights_grouped(&ms, &current, action, Some((a, b)))?;
+                let mut next = current.clone();
+                for x in [a, b] {
+                    let mem = Member::<F> {
+                        st: ms[x].st.clone(),
+                        proof: current[x].clone(),
+                        ctx: ms[x].ctx.clone(),
+                        valid: true,
+                        mask: None,
+                        m: ms[x].m,
+                        cap: ms[x].cap,
+                        altered: false,
+                    };
+                    next[x] = edit(&mem, |pf| match slot {
+                        Slot::R1 => add(&mut pf.r1, Scalar::ONE),
+                        Slot::S1 => add(&mut pf.s1, Scalar::ONE),
+                        Slot::D1(k) => {
+                            let k = pick(*k, pf.d1.len());
+                            add(&mut pf.d1[k], Scalar::ONE)
+                        },
+                    })?;
+                }
+                let after = weights_grouped(&ms, &next, action, Some((a, b)))?;
+                for x in 0..n {
+                    if x == a || x == b {
+                        continue;
+                    }
+                    // before[a] / after[a] hold the SUM of the two copies' factors
+                    if before[a] * after[x] == after[a] * before[x] {
+                        return Err(format!(
+                            "the ratio of the factors of members {} and {} did not change when response scalar {:?} changed in both copies ({} and {}) of a repeated member (batch of {})",
+                            a, x, slot, a, b, n
+                        ));
+                    }
+                }
+                current = next;
+                learned = weights(&ms, &current, action)?;
+                shapes.push("reprobe-twins".into());
+            },
+            Step::AttackTwins { other, coord, delta } => {
+                let (a, b) = match twin {
+                    Some(t) if n >= 3 => t,
+                    _ => continue,
+                };
+                let mut q = pick(*other, n);
+                while q == a || q == b {
+                    q = (q + 1) % n;
+                }
+                let k = pick(*coord, spec.ext);
+                let dq = Scalar::from((*delta).max(1));
+                // the same offset on both copies, chosen with the factors observed on a previous run in which the two copies
+                // were byte-identical as well (shared marker): sum = w_a + w_b
+                let seen = weights_grouped(&ms, &current, action, Some((a, b)))?;
+                if seen[a] == Scalar::ZERO {
+                    return Err(format!("the factors of the two copies ({}, {}) of a repeated member sum to zero", a, b));
+                }
+                let dp = -(seen[q] * dq) * seen[a].invert();
+                let mk = |x: usize, dd: Scalar, cur: &RangeProof<FP>| {
+                    let mem = Member::<F> {
+                        st: ms[x].st.clone(),
+                        proof: cur.clone(),
+                        ctx: ms[x].ctx.clone(),
+                        valid: true,
+                        mask: None,
+                        m: ms[x].m,
+                        cap: ms[x].cap,
+                        altered: false,
+                    };
+                    edit(&mem, |pf| add(&mut pf.d1[k], dd))
+                };
+                let mut next = current.clone();
+                next[a] = mk(a, dp, &current[a])?;
+                next[b] = mk(b, dp, &current[b])?;
+                next[q] = mk(q, dq, &current[q])?;
+                let (ok, _) = run(&ms, &next, action)?;
+                if ok {
+                    return Err(format!(
+                        "ADAPTIVE CANCELLATION ACCEPTED: the same offset on d1[{}] of both copies ({}, {}) of a repeated member, compensated on member {} with factors observed on the previous run, verifies as a batch of {}",
+                        k, a, b, q, n
+                    ));
+                }
+                learned = weights(&ms, &next, action)?;
+                shapes.push("attack-twins".into());
+                log.nontrivial(&(n, a, q, k, shapes.clone(), spec.ext, bits));
+            },
         }
     }
     log.extra_evals += spec.script.len() as u64;
     log.label("engine=F");
     log.label(format!("weights:batch={}", n));
+    log.label(format!("weights:repeated-members={}", spec.repeats.len()));
     log.label(format!("weights:script={}", shapes.join(">")));
     log.label(format!("bits={}", bits));
     log.label(format!("ext={}", spec.ext));
